@@ -61,7 +61,7 @@ BASE_W = {'set_meta': 2, 'set_xy': 3, 'obs': 10, 'add_atom': 9, 'add_bond': 12, 
 MUTATORS = {'set_meta', 'set_xy', 'add_atom', 'add_bond', 'del_atom', 'del_bond', 'remap', 'union', 'tx', 'clean_stereo',
             'add_atom_stereo', 'add_ct_stereo', 'invalid', 'opaque'}
 OPAQUE = ['explicify_hydrogens', 'implicify_hydrogens', 'clean_isotopes', 'remove_coordinate_bonds', 'neutralize',
-          'standardize', 'fix_resonance', 'kekule', 'standardize_charges', 'canonicalize']
+          'standardize', 'fix_resonance', 'kekule', 'standardize_charges', 'canonicalize', 'clean2d']
 INVALID_KINDS = 15
 
 
@@ -509,6 +509,9 @@ class Sim(RxMixin):
         else:
             self._do('set_xy', True, lambda: box.append(self._set_xy(mol, n, op)))
             model.xy[n] = box[0]
+            # an atom object has no way back to its molecule: the attribute setters' docstrings tell the caller to flush the
+            # cache himself (or to use `with mol:`), and the wedge map / depiction are derived from the coordinates
+            mol.flush_cache()
         self.probes['set_xy'] += 1
         return hi, set()
 
@@ -844,10 +847,12 @@ class Sim(RxMixin):
             return None
         h = self.handles[hi]
         name = OPAQUE[op.get('name', 0) % len(OPAQUE)]
-        from chython.exceptions import ValenceError, InvalidAromaticRing
+        from chython.exceptions import ValenceError, InvalidAromaticRing, ImplementationError
         try:
             getattr(h.mol, name)()
         except (ValenceError, InvalidAromaticRing):
+            self.probes['opaque_refused'] += 1
+        except ImplementationError if name == 'clean2d' else ():      # the layout engine gives up on some graphs
             self.probes['opaque_refused'] += 1
         except SimFault:
             raise
